@@ -26,7 +26,8 @@ RULE = (
     "case = random clash-free record set and delimiter; inputs are malformed first (no delimiter, empty, only a "
     "delimiter, delimiter first/last, doubled delimiter) then unknown and known CURIEs/URIs/prefixes. For each of the 14 "
     "listed functions the driver issues every strict x passthrough (resp. strict x return_none) combination the "
-    "signature offers with tracing on; an offline checker groups the recorded top-level call events by (function, "
+    "signature offers with tracing on (in every second case a second time after the converter has grown by a new record "
+    "and a merged synonym, so that strings fail before and succeed after on the same object); an offline checker groups the recorded top-level call events by (function, "
     "input) and checks the relation between modes without any model: default returns (value or None / (None, None)) "
     "and never raises; passthrough returns the same value or the input unchanged (the formatted CURIE for pair / "
     "reference forms); strict returns the same value or raises a ValueError subclass defined in curies; strict wins over "
@@ -54,6 +55,36 @@ def run_case(ctx, g, rng):
     inputs = malformed(d) + [rng.choice(gen.UNICODE)]
     inputs += [p + d + rng.choice(gen.IDS) for p in allp[:4]] + [u + rng.choice(gen.IDS) for u in allu[:4]] + allp[:2] + [u[:-1] for u in allu[:2]]
     inputs = list(dict.fromkeys(inputs))
+    phases = [(inputs, None)]
+    if g % 2 == 0:
+        # second phase on the same object: the converter grows (a new record, a synonym merged into an existing one)
+        # after it has been queried, then the matrix is issued again - also for strings that fail before and
+        # succeed after
+        newp, news = "zq" + str(g % 7), "zs" + str(g % 5)
+        newu = "http://zq.org/" + str(g % 3) + "/"
+        grown_inputs = [newp + d + "1", news + d + "1", newu + "1", newp, news, "nodelim", ""] + inputs[-6:]
+        inputs = list(dict.fromkeys([newp + d + "1", news + d + "1", newu + "1", newp] + inputs))
+        phases = [(inputs, None), (list(dict.fromkeys(grown_inputs)), (newp, newu, news))]
+    pairs = []
+    for inputs, growth in phases:
+        if growth is not None:
+            newp, newu, news = growth
+            call(c.add_prefix, newp, newu)
+            if recs:
+                call(c.add_prefix, recs[0].prefix, recs[0].uri_prefix, [news], merge=True)
+            allp = [p for r in spec.snapshot(c) for p in spec.all_p(r)]
+        run_matrix(api, c, inputs, allp, d)
+        check_mode_matrix(S.events, c, [spec.rec_dict(r) for r in spec.snapshot(c)], d, set(malformed(d)))
+        S.events = []
+        S.counters["wl:inputs"] += len(inputs)
+        S.counters["wl:phases"] += 1
+    if g % 101 == 0:
+        probe.sample({"records": [spec.rec_dict(r) for r in recs], "delimiter": d, "input": "nodelim",
+                      "expand": {f"strict={st},passthrough={pt}": call(c.expand, "nodelim", strict=st, passthrough=pt) for st, pt in MODES}})
+
+
+def run_matrix(api, c, inputs, allp, d):
+    S = probe.S
     S.tracing = True
     S.events = []
     try:
@@ -67,7 +98,7 @@ def run_case(ctx, g, rng):
                 call(c.parse_curie, x, strict=st)
                 for rn in (False, True):
                     call(c.parse_uri, x, strict=st, return_none=rn)
-        pairs = [(p, i) for p in (allp[:3] + ["nope", "", "nodelim"]) for i in ("1", "", d)]
+        pairs = [(p, i) for p in (allp[:3] + allp[-2:] + ["nope", "", "nodelim"]) for i in ("1", "", d)]
         for p, i in pairs:
             for st, pt in MODES:
                 call(c.expand_pair, p, i, strict=st, passthrough=pt)
@@ -76,12 +107,6 @@ def run_case(ctx, g, rng):
                 call(c.expand_pair_all, p, i, strict=st)
     finally:
         S.tracing = False
-    check_mode_matrix(S.events, c, [spec.rec_dict(r) for r in recs], d, set(malformed(d)))
-    S.events = []
-    S.counters["wl:inputs"] += len(inputs) + len(pairs)
-    if g % 101 == 0:
-        probe.sample({"records": [spec.rec_dict(r) for r in recs], "delimiter": d, "input": "nodelim",
-                      "expand": {f"strict={st},passthrough={pt}": call(c.expand, "nodelim", strict=st, passthrough=pt) for st, pt in MODES}})
 
 
 def check_mode_matrix(events, conv, recs, d, malformed_set):
